@@ -2,5 +2,9 @@ CONSTANTS
   Threads = {1, 2}
   MaxTasks = 2
   MaxGen = 1
+  MaxHeld = 1
+  Controllers = {1, 2}
+  Submitters = {1, 2}
+  Ops = {"Start", "Shutdown", "WaitShutdown", "WaitIsZero", "Submit", "SubmitBegin", "SubmitEnd", "Release"}
   WorkerCounts = {1}
 INVARIANTS TypeOK Conservation NoIdleWithWork WaitersJustified ShutdownCompletes
